@@ -20,6 +20,24 @@
 // Output: `def census : List (String × String × String)` = (file, enclosing function, kind),
 // sorted, with multiplicity, WITHOUT line numbers, so that edits which do not add, remove or move
 // a potential panic site do not change the file.  Stdlib only.
+//
+// Second output, `def assertGuards : List (String × String × String × String)`: for every `assert`
+// row of the census (same order) the asserted expression in source form and its GUARDS = the
+// conditions, in source form, under which control provably does not reach the assertion or under
+// which alone it is reached, as far as they talk about the asserted value:
+//
+//	unless C   an `if C { ... }` statement without else whose body always leaves (return, panic,
+//	           continue, break, goto), that is an earlier statement of a block enclosing the
+//	           assertion (so it DOMINATES the assertion: reaching it implies !C), or the assertion
+//	           sits in the else branch of `if C`
+//	if C       the assertion sits in the then branch of `if C`
+//
+// restricted to conditions that mention the root variable of the asserted operand (`out` in
+// `out.Value().(bool)`) and that come after the last assignment to that variable before the
+// assertion (an earlier check would be about another value).  Guards are joined by " ; " in source
+// order.  This makes safety arguments of the form "guarded by the run-time type check directly
+// above" a CHECKED fact: deleting the check, moving it behind the assertion, or replacing it by a
+// test that is not about the value changes the row.
 package main
 
 import (
@@ -30,6 +48,7 @@ import (
 	"go/build"
 	"go/importer"
 	"go/parser"
+	"go/printer"
 	"go/token"
 	"go/types"
 	"os"
@@ -230,6 +249,169 @@ func requires(gomod string) (modPath string, reqs [][2]string) {
 type site struct {
 	file, fn, kind string
 	line           int
+	expr, guards   string // assert sites only
+}
+
+func src(fset *token.FileSet, n ast.Node) string {
+	var b strings.Builder
+	if err := printer.Fprint(&b, fset, n); err != nil {
+		return "?"
+	}
+	return strings.Join(strings.Fields(b.String()), " ")
+}
+
+// rootIdent: the variable an operand is built from by selections, calls on it, indexing,
+// dereferences and parentheses (out.Value() -> out, (*p).x[0] -> p).
+func rootIdent(e ast.Expr) *ast.Ident {
+	for {
+		switch x := e.(type) {
+		case *ast.Ident:
+			return x
+		case *ast.ParenExpr:
+			e = x.X
+		case *ast.SelectorExpr:
+			e = x.X
+		case *ast.CallExpr:
+			sel, ok := ast.Unparen(x.Fun).(*ast.SelectorExpr)
+			if !ok {
+				return nil
+			}
+			e = sel.X
+		case *ast.IndexExpr:
+			e = x.X
+		case *ast.StarExpr:
+			e = x.X
+		case *ast.TypeAssertExpr:
+			e = x.X
+		default:
+			return nil
+		}
+	}
+}
+
+func mentions(n ast.Node, name string) bool {
+	found := false
+	ast.Inspect(n, func(m ast.Node) bool {
+		if id, ok := m.(*ast.Ident); ok && id.Name == name {
+			found = true
+		}
+		return !found
+	})
+	return found
+}
+
+// leaves: the statement list always ends by leaving the enclosing block.
+func leaves(list []ast.Stmt) bool {
+	if len(list) == 0 {
+		return false
+	}
+	switch s := list[len(list)-1].(type) {
+	case *ast.ReturnStmt:
+		return true
+	case *ast.BranchStmt:
+		return s.Tok == token.BREAK || s.Tok == token.CONTINUE || s.Tok == token.GOTO
+	case *ast.ExprStmt:
+		if c, ok := s.X.(*ast.CallExpr); ok {
+			if id, ok := ast.Unparen(c.Fun).(*ast.Ident); ok && id.Name == "panic" {
+				return true
+			}
+			if sel, ok := ast.Unparen(c.Fun).(*ast.SelectorExpr); ok {
+				if p, ok := sel.X.(*ast.Ident); ok && p.Name == "os" && sel.Sel.Name == "Exit" {
+					return true
+				}
+			}
+		}
+	case *ast.BlockStmt:
+		return leaves(s.List)
+	}
+	return false
+}
+
+// guardsOf computes the guards of the type assertion ta inside the function body.
+func guardsOf(fset *token.FileSet, body *ast.BlockStmt, ta *ast.TypeAssertExpr) string {
+	root := rootIdent(ta.X)
+	if root == nil {
+		return ""
+	}
+	// path of nodes from the body down to the assertion
+	var path []ast.Node
+	var stack []ast.Node
+	ast.Inspect(body, func(n ast.Node) bool {
+		if n == nil {
+			stack = stack[:len(stack)-1]
+			return true
+		}
+		stack = append(stack, n)
+		if n == ast.Node(ta) {
+			path = append([]ast.Node(nil), stack...)
+		}
+		return path == nil
+	})
+	if path == nil {
+		return ""
+	}
+	// position of the last assignment to / declaration of the root variable before the assertion
+	var lastDef token.Pos
+	ast.Inspect(body, func(n ast.Node) bool {
+		switch x := n.(type) {
+		case *ast.AssignStmt:
+			for _, l := range x.Lhs {
+				if id, ok := l.(*ast.Ident); ok && id.Name == root.Name && x.Pos() < ta.Pos() && x.End() > lastDef {
+					lastDef = x.End()
+				}
+			}
+		case *ast.ValueSpec:
+			for _, id := range x.Names {
+				if id.Name == root.Name && x.Pos() < ta.Pos() && x.End() > lastDef {
+					lastDef = x.End()
+				}
+			}
+		case *ast.RangeStmt:
+			for _, l := range []ast.Expr{x.Key, x.Value} {
+				if id, ok := l.(*ast.Ident); ok && id.Name == root.Name && x.Pos() < ta.Pos() && x.Body.Pos() > lastDef {
+					lastDef = x.Body.Pos()
+				}
+			}
+		}
+		return true
+	})
+	var gs []string
+	add := func(kind string, cond ast.Expr) {
+		if cond != nil && cond.Pos() >= lastDef && mentions(cond, root.Name) {
+			gs = append(gs, kind+" "+src(fset, cond))
+		}
+	}
+	for i, n := range path {
+		if i+1 >= len(path) {
+			break
+		}
+		child := path[i+1]
+		var list []ast.Stmt
+		switch x := n.(type) {
+		case *ast.BlockStmt:
+			list = x.List
+		case *ast.CaseClause:
+			list = x.Body
+		case *ast.CommClause:
+			list = x.Body
+		case *ast.IfStmt:
+			switch child {
+			case ast.Node(x.Body):
+				add("if", x.Cond)
+			case x.Else:
+				add("unless", x.Cond)
+			}
+		}
+		for _, st := range list {
+			if ast.Node(st) == child {
+				break
+			}
+			if is, ok := st.(*ast.IfStmt); ok && is.Else == nil && leaves(is.Body.List) {
+				add("unless", is.Cond)
+			}
+		}
+	}
+	return strings.Join(gs, " ; ")
 }
 
 func recvName(fd *ast.FuncDecl) string {
@@ -300,19 +482,19 @@ func scanFile(fset *token.FileSet, rel string, f *ast.File, info *types.Info, ou
 		_, lit := ast.Unparen(e).(*ast.BasicLit)
 		return lit
 	}
-	var walk func(n ast.Node, fn string)
-	walk = func(n ast.Node, fn string) {
+	var walk func(n ast.Node, fn string, body *ast.BlockStmt)
+	walk = func(n ast.Node, fn string, body *ast.BlockStmt) {
 		ast.Inspect(n, func(n ast.Node) bool {
 			switch x := n.(type) {
 			case *ast.FuncDecl:
 				if x.Body != nil && fn == "<package>" {
-					walk(x.Body, recvName(x))
+					walk(x.Body, recvName(x), x.Body)
 				}
 				return fn != "<package>"
 			case *ast.ValueSpec:
 				if fn == "<package>" && len(x.Names) > 0 {
 					for _, v := range x.Values {
-						walk(v, "var "+x.Names[0].Name)
+						walk(v, "var "+x.Names[0].Name, nil)
 					}
 					return false
 				}
@@ -323,12 +505,16 @@ func scanFile(fset *token.FileSet, rel string, f *ast.File, info *types.Info, ou
 						_, builtin = obj.(*types.Builtin)
 					}
 					if builtin {
-						*out = append(*out, site{rel, fn, "panic", at(x)})
+						*out = append(*out, site{file: rel, fn: fn, kind: "panic", line: at(x)})
 					}
 				}
 			case *ast.TypeAssertExpr:
 				if x.Type != nil && !commaOK[x] {
-					*out = append(*out, site{rel, fn, "assert", at(x)})
+					g := ""
+					if body != nil {
+						g = guardsOf(fset, body, x)
+					}
+					*out = append(*out, site{rel, fn, "assert", at(x), src(fset, x), g})
 				}
 			case *ast.IndexExpr:
 				if tv, ok := info.Types[x.Index]; ok && tv.IsType() {
@@ -355,17 +541,17 @@ func scanFile(fset *token.FileSet, rel string, f *ast.File, info *types.Info, ou
 						}
 					}
 				}
-				*out = append(*out, site{rel, fn, "index", at(x)})
+				*out = append(*out, site{file: rel, fn: fn, kind: "index", line: at(x)})
 			case *ast.SliceExpr:
 				if x.Low == nil && x.High == nil && x.Max == nil {
 					return true
 				}
-				*out = append(*out, site{rel, fn, "slice", at(x)})
+				*out = append(*out, site{file: rel, fn: fn, kind: "slice", line: at(x)})
 			}
 			return true
 		})
 	}
-	walk(f, "<package>")
+	walk(f, "<package>", nil)
 }
 
 func leanStr(s string) string {
@@ -479,11 +665,14 @@ func main() {
 		if a.kind != b.kind {
 			return a.kind < b.kind
 		}
-		return a.line < b.line
+		if a.line != b.line {
+			return a.line < b.line
+		}
+		return a.expr < b.expr
 	})
 	if *lines {
 		for _, s := range sites {
-			fmt.Fprintf(os.Stderr, "%s:%d\t%s\t%s\n", s.file, s.line, s.fn, s.kind)
+			fmt.Fprintf(os.Stderr, "%s:%d\t%s\t%s\t%s\t%s\n", s.file, s.line, s.fn, s.kind, s.expr, s.guards)
 		}
 	}
 	var b strings.Builder
@@ -506,6 +695,26 @@ func main() {
 			sep = ""
 		}
 		fmt.Fprintf(&b, "  (%s, %s, %s)%s\n", leanStr(s.file), leanStr(s.fn), leanStr(s.kind), sep)
+	}
+	b.WriteString("]\n\n")
+	b.WriteString("/-- For every `assert` row of the census, in census order: (file, enclosing function, asserted\n")
+	b.WriteString("expression, guards).  Guards = conditions about the asserted value's root variable that control\n")
+	b.WriteString("the reachability of the assertion: `unless C` = a dominating `if C { ...leave }` (or the else branch\n")
+	b.WriteString("of `if C`), `if C` = the then branch of `if C`; source form, joined by \" ; \"; only conditions after\n")
+	b.WriteString("the last assignment to that variable. -/\n")
+	b.WriteString("def assertGuards : List (String × String × String × String) := [\n")
+	var as []site
+	for _, s := range sites {
+		if s.kind == "assert" {
+			as = append(as, s)
+		}
+	}
+	for i, s := range as {
+		sep := ","
+		if i == len(as)-1 {
+			sep = ""
+		}
+		fmt.Fprintf(&b, "  (%s, %s, %s, %s)%s\n", leanStr(s.file), leanStr(s.fn), leanStr(s.expr), leanStr(s.guards), sep)
 	}
 	b.WriteString("]\n\nend Pko.Gen.PanicCensus\n")
 	if err := os.MkdirAll(filepath.Dir(*out), 0o755); err != nil {
